@@ -1,3 +1,29 @@
-(* C06 — interim *)
-From Verif Require Import Base GenThresholds Codebase.
-Example C06_ex : True. Proof. exact I. Qed.
+(* C06 — analysis is deterministic, order-independent and isolated per file.
+   What a theorem can carry: every model function is a pure Gallina function of the
+   language and the token stream (determinism and isolation hold by construction: no
+   state survives an analysis; the matcher works on sorted, duplicate-free state sets
+   and `consume` tries every transition, so no Python set-iteration order can show),
+   and the aggregation is invariant under the order in which files are analysed
+   (below).  CPython's hashing and os.walk order are exercised by the harness. *)
+From Verif Require Import Base GenThresholds Thresholds Codebase CodebaseProofsStr CodebaseProofs PermProofs
+  Token Lex Headers ScanFile.
+From Coq Require Import Permutation.
+
+(* two scans that analyse the same files in different orders: same files, same totals, same folder
+   keys, same folder profiles, folder entries equal up to order *)
+Theorem C06_report_order : forall root es es' cb cb',
+  Permutation es es' -> Forall wf_path (map e_path es) -> NoDup (map e_path es) -> Forall mk_built es ->
+  build root es = OK cb -> build root es' = OK cb' ->
+  Permutation (cb_files cb) (cb_files cb') /\
+  (forall lang, dget (cb_totals cb) lang = dget (cb_totals cb') lang) /\
+  (forall k, In k (map fst (cb_tree cb)) <-> In k (map fst (cb_tree cb'))) /\
+  (forall k fo fo', In (k, fo) (cb_tree cb) -> In (k, fo') (cb_tree cb') ->
+     fo_profile fo = fo_profile fo' /\ Permutation (fo_entries fo) (fo_entries fo')).
+Proof. exact C06_order_irrelevant. Qed.
+
+(* the measurements of a file are a function of its language and tokens alone *)
+Theorem C06_function_of_content : forall l toks toks', toks = toks' -> scan_file l toks = scan_file l toks'.
+Proof. intros l toks toks' ->. reflexivity. Qed.
+
+Print Assumptions C06_report_order.
+Print Assumptions C06_function_of_content.
